@@ -132,7 +132,7 @@ structure CatCfg (cfg : RunCfg ℝ) : Prop where
 /-! ## 2. the laws at `ℝ` -/
 
 theorem fnOK_real : FnOK realFn realTrig :=
-  ⟨expOrdLaws_real, powLaws_real, powNonneg_real, sinLaw_real⟩
+  ⟨expOrdLaws_real, powLaws_real, powNonneg_real, powSqLaw_real, sinLaw_real⟩
 
 theorem gwRound_real : GwRoundLaws realFn ∧ GwRoundSign realFn := by
   refine ⟨⟨fun x => ?_⟩, ⟨fun x h => h⟩⟩
@@ -241,7 +241,7 @@ theorem SoilBuilt.ok {wt : Bool} {cells : List (Cell ℝ)} {thini : List ℝ}
     hdz, hsp, hs, hi, hnamed, hpts, rfl, rfl⟩ := h
   exact soilInit_ok realFn natGe1 natGe2 natGe1_anti natGe2_anti more fuel dz specs wt adjRew calcCN
     rew zSurf cn zTopArg so zgw zSoil ty pts o hdz hsp
-    (fun _ => ⟨fun _ => rfl, Real.exp_pos⟩) hs hi hnamed hpts
+    (fun _ => ⟨fun _ => rfl, Real.exp_pos, powSqLaw_real⟩) hs hi hnamed hpts
 
 /-! ## 5. the initial state -/
 
